@@ -2936,6 +2936,15 @@ impl<'a, R: FileManager> FrontendCtx<'a, R> {
         }
     }
 
+    // the string a template chunk denotes: escapes processed (`\$` is `$`), raw text only when
+    // the chunk has no cooked value
+    fn tpl_quasi_text(quasi: &swc_ecma_ast::TplElement) -> String {
+        match &quasi.cooked {
+            Some(cooked) => cooked.to_atom_lossy().to_string(),
+            None => quasi.raw.to_string(),
+        }
+    }
+
     fn convert_ts_tpl_lit_type_non_trivial(
         &mut self,
         it: &TsTplLitType,
@@ -2951,7 +2960,7 @@ impl<'a, R: FileManager> FrontendCtx<'a, R> {
             if selecting_quasis {
                 let quasis = &it.quasis[quasis_idx];
                 quasis_idx += 1;
-                acc.push(TplLitTypeItem::StringConst(quasis.raw.to_string()));
+                acc.push(TplLitTypeItem::StringConst(Self::tpl_quasi_text(quasis)));
                 selecting_quasis = false;
             } else {
                 let type_ = &it.types[types_idx];
@@ -2978,7 +2987,7 @@ impl<'a, R: FileManager> FrontendCtx<'a, R> {
             Ok(Runtype::single_string_const(
                 &it.quasis
                     .iter()
-                    .map(|it| it.raw.to_string())
+                    .map(Self::tpl_quasi_text)
                     .collect::<String>(),
             ))
         }
